@@ -1272,34 +1272,10 @@ func sigPairs(ps, cs [][]KP) string {
 // both into preloadMap[embedded][relation], the last map entry visited wins, so the relation's own
 // conditions are dropped in a map-order dependent share of the runs.
 func sig(in Input) string {
-	if in.Both && strings.Contains(in.Rel, ".") && in.Cond.Kind != "all" && in.Cond.Kind != "" {
-		return "embedded-relation-named-preload-with-associations" // fixed in /repo b890351
-	}
-	// a STRUCT destination whose joined pointer relation has no row, with a second relation joined
-	// below it and a preload below that one: preloadEntryPoint descends into the nil pointer
-	if in.Mode == "joins" && in.Shape == "struct" && in.JoinNested != "" && in.Nested == in.JoinNested && in.Nested2 != "" && len(in.Subset) == 1 {
-		f := fams[in.Fam]
-		r := f.rels()[in.Rel]
-		for _, p := range in.Tables["P"] {
-			if p.F["UID"].I == nil || *p.F["UID"].I != in.Subset[0] {
-				continue
-			}
-			joined := false
-			for _, c := range in.Tables[r.Child] {
-				if c.Del && !in.Unscoped {
-					continue
-				}
-				m := true
-				for i := range r.PF {
-					m = m && p.F[r.PF[i]].eq(c.F[r.CF[i]])
-				}
-				joined = joined || m
-			}
-			if !joined {
-				return "struct-parent-without-joined-row-nested-join-preload"
-			}
-		}
-	}
+	// no known shape at present.  Former ones, ordinary inputs now: a relation inside an embedded
+	// struct preloaded by name with own conditions next to Preload(clause.Associations) (fixed in
+	// /repo b890351); a struct destination without joined row + a second joined relation + a preload
+	// below it, which panicked (fixed in /repo d2ef4bc).
 	return ""
 }
 
